@@ -15,6 +15,7 @@ import (
 	"fmt"
 	"math/big"
 	"os"
+	"reflect"
 	"strings"
 	"unicode"
 
@@ -977,6 +978,15 @@ func intsTok(a []int) string {
 
 // ---------------------------------------------------------------- result
 
+// wellFormedInfo: every array/slice level has an element type.
+func wellFormedInfo(t types.Info) bool {
+	if t.Type == types.TArray || t.Type == types.TSlice {
+		return t.ElementType != nil && wellFormedInfo(*t.ElementType)
+	}
+	// a signed integer of width 0 is outside the property (widths 1..130)
+	return !(t.Type == types.TInt && t.Bits == 0)
+}
+
 func classOf(w int) int {
 	switch {
 	case w <= 8:
@@ -1004,12 +1014,24 @@ func wantScalar(signed bool, w int, z *big.Int) string {
 	return fmt.Sprintf("u%d:%s", c, z.String())
 }
 
+// renderResult renders the value returned by mpc.Result canonically, directed
+// by the output type (strings of the default branch are "<value> (<type>)").
 func renderResult(t types.Info, v interface{}) string {
 	if s, ok := v.(string); ok {
 		if t.Type == types.TString {
 			return "s:" + hxlib.Hex([]byte(s))
 		}
 		return "fmt:" + strings.SplitN(s, " ", 2)[0]
+	}
+	rv := reflect.ValueOf(v)
+	if rv.IsValid() && rv.Kind() == reflect.Slice && t.ElementType != nil &&
+		(t.Type == types.TArray || t.Type == types.TSlice) {
+		name := strings.ReplaceAll(rv.Type().Elem().String(), "*big.Int", "big")
+		var parts []string
+		for i := 0; i < rv.Len(); i++ {
+			parts = append(parts, renderResult(*t.ElementType, rv.Index(i).Interface()))
+		}
+		return "[" + name + ":" + strings.Join(parts, ";") + "]"
 	}
 	return rvalTok(v)
 }
@@ -1089,6 +1111,34 @@ func resultCase(o *hxlib.Out, r *hxlib.Rng, idx int) {
 			}
 			o.Count("result_string")
 		}
+	case mode == 7 && r.Bool(): // array of arrays round trip
+		signed := r.Bool()
+		w := elWidths[r.Intn(len(elWidths))]
+		icount := r.Intn(4)
+		count := r.Intn(4)
+		inner := arrInfo(r.Bool(), icount, intInfo(signed, w))
+		t = arrInfo(r.Bool(), count, inner)
+		name := "big"
+		if c := classOf(w); c != 0 {
+			name = fmt.Sprintf("uint%d", c)
+			if signed {
+				name = fmt.Sprintf("int%d", c)
+			}
+		}
+		var bits []bool
+		var outer []string
+		for i := 0; i < count; i++ {
+			var parts []string
+			for k := 0; k < icount; k++ {
+				v := genInt(r, signed, w)
+				bits = append(bits, twos(v, w)...)
+				parts = append(parts, wantScalar(signed, w, v))
+			}
+			outer = append(outer, "["+name+":"+strings.Join(parts, ";")+"]")
+		}
+		z = bitsToNat(bits)
+		want = "[[]" + name + ":" + strings.Join(outer, ";") + "]"
+		o.Count("result_nested_roundtrip")
 	case mode == 7: // arrays of bool / string / nested / struct elements
 		var el types.Info
 		switch r.Intn(5) {
@@ -1162,7 +1212,7 @@ func resultCheck(o *hxlib.Out, idx int, t types.Info, z *big.Int, want string, u
 	if !ok1 {
 		res = "panic"
 		o.Count("result_panic")
-		wellFormed := (t.Type == types.TArray || t.Type == types.TSlice) && t.ElementType != nil
+		wellFormed := (t.Type == types.TArray || t.Type == types.TSlice) && wellFormedInfo(t)
 		if wellFormed {
 			compoundElem := elemTag == "array" || elemTag == "slice" || elemTag == "struct"
 			intElemW0 := (elemTag == "int") && t.ElementType.Bits == 0
@@ -1440,9 +1490,9 @@ func corpus(o *hxlib.Out) {
 		return member{t: intInfo(signed, w), v: leafVal{kind: "int", z: i64(v)}, str: fmt.Sprint(v), hasStr: true,
 			spell: "dec", gv: gv, hasGV: true, signed: signed}
 	}
-	// (c) setInt: no sign extension above bit 64
+	// formerly (c) setInt: no sign extension above bit 64 (fixed by 95af76e): ordinary passing case
 	encCheck(o, nil, -2, []member{intM(true, 65, -1, int64(-1))}, -1, nil)
-	// (c') sign bits of a negative int8 left in the wires of an array given no element
+	// formerly (c') sign bits of a negative int8 left in the wires of an array given no element (fixed by 95af76e)
 	arr := member{t: arrInfo(false, 4, intInfo(false, 8)), v: leafVal{kind: "arr"}, str: "0", hasStr: true, spell: "dec",
 		gv: nil, hasGV: true}
 	alt := intM(true, 8, -1, int8(-1))
@@ -1452,8 +1502,8 @@ func corpus(o *hxlib.Out) {
 	resultCheck(o, -5, intInfo(true, 8), i64(0xF0), "i8:-16", false, false)
 	resultCheck(o, -6, intInfo(true, 5), i64(16), "i8:-16", true, false)
 	resultCheck(o, -7, intInfo(true, 100), pow2(99), "big:-"+pow2(99).String(), false, false)
-	// (d) nested array result (the [2][2]uint8 output of a compiled program)
-	resultCheck(o, -8, arrInfo(false, 2, arrInfo(false, 2, intInfo(false, 8))), i64(0x02000001), "", true, false)
+	// formerly (d) nested array result panicked (fixed by 74f1961): the [2][2]uint8 output of a compiled program
+	resultCheck(o, -8, arrInfo(false, 2, arrInfo(false, 2, intInfo(false, 8))), i64(0x04030201), "[[]uint8:[uint8:u8:1;u8:2];[uint8:u8:3;u8:4]]", true, false)
 	// formerly (b) bitLen at 2 and 3 (fixed by 485d3fb): ordinary passing cases; negative values still differ
 	sizesPair(o, nil, -9, i64(2), false, 8)
 	sizesPair(o, nil, -10, i64(3), true, 8)
